@@ -44,6 +44,10 @@ def dispatchSite : Sexp → Option Sexp
     match scheme.asStr?, netloc.asStr?, path.asStr?, Sexp.asList? Sexp.asStr? canon, Sexp.asList? Sexp.asStr? root, isFile.asBool? with
     | some sch, some nl, some pa, some ca, some ro, some f => some (embedDecision sch nl pa ca ro f).toSexp
     | _, _, _, _, _, _ => some (Sexp.tag "bad-request" [Sexp.atom "args"])
+  | .list [.atom "pagescale", sv, nat] =>
+    match Sexp.asOpt? Sexp.asNat? sv, Sexp.asOpt? Sexp.asNat? nat with
+    | some sv, some nat => some (Sexp.ofOpt Num.toSexp (pageScale sv nat))
+    | _, _ => some (Sexp.tag "bad-request" [Sexp.atom "args"])
   | .list [.atom "dirtitle", a] => (a.asStr?).map fun a => Sexp.ofStr (dirnameToTitle a)
   | _ => none
 
